@@ -429,6 +429,9 @@ hashtable_iter_next(qb_map_iter_t * it, void **value)
 		hashtable_node_deref(hi->i.m, hi->node);
 	}
 	if (!found) {
+		/* finished: nothing is referenced any more */
+		hi->node = NULL;
+		hi->bucket = hash_table->hash_buckets_len;
 		return NULL;
 	}
 	hi->node = hash_node;
@@ -438,6 +441,14 @@ hashtable_iter_next(qb_map_iter_t * it, void **value)
 static void
 hashtable_iter_free(qb_map_iter_t * i)
 {
+	struct hashtable_iter *hi = (struct hashtable_iter *)i;
+
+	if (hi->node != NULL) {
+		/* if free'ing the iterator before getting to the last
+		 * node make sure we de-ref the current node.
+		 */
+		hashtable_node_deref(hi->i.m, hi->node);
+	}
 	free(i);
 }
 
